@@ -36,6 +36,8 @@ contract(
                   "trunc((secs(date) - secs(start_date)) / resolution))))"),
     ],
     calls={"_total_seconds": ("contract", CY + "::_total_seconds")},
+    replay="scoreboard",
+    probes={"start": "secs(start_date)", "end": "secs(start_date)", "res": "resolution", "size": "size", "date": "secs(date)", "force": "force_into_project"},
 )
 
 contract(
@@ -54,6 +56,8 @@ contract(
         ("usec", "implies(not force_into_project or (0 <= idx and idx < size), "
                  "isint((secs(some(result)) - secs(start_date)) * 1000000))"),
     ],
+    replay="scoreboard",
+    probes={"start": "secs(start_date)", "end": "secs(end_date)", "res": "resolution", "size": "size", "idx": "idx", "force": "force_into_project"},
 )
 
 # ---------------------------------------------------------------------------------------------
@@ -82,6 +86,8 @@ contract(
     ],
     calls={"self.clear": ("contract", SB + "::Scoreboard.clear")},
     locals={"sb": List(Slot)},
+    replay="scoreboard",
+    probes={"start": "secs(start)", "end": "secs(end)", "res": "granularity", "gran": "granularity", "size": "1"},
 )
 ghost("ceil_div_secs", ["x", "g"], "0 - floor((0 - x) / g)")
 
@@ -100,6 +106,7 @@ contract(
     defaults={"forceIntoProject": False},
     consts={"_USE_CYTHON": False},
     requires=_idx_requires, ensures=_idx_ensures, raises=_idx_raises,
+    replay="scoreboard", probes={"start": "secs(self.startDate)", "end": "secs(self.endDate)", "res": "self.resolution", "size": "self.size", "idx": "idx", "force": "forceIntoProject"},
 )
 
 contract(
@@ -111,6 +118,7 @@ contract(
         ("c-int", f"-{I32} <= idx and idx <= {I32} and self.resolution <= {I32} and self.size <= {I32}"),
         ("c-horizon", f"self.size * self.resolution <= {I32}")],
     ensures=_idx_ensures, raises=_idx_raises,
+    replay="scoreboard", probes={"start": "secs(self.startDate)", "end": "secs(self.endDate)", "res": "self.resolution", "size": "self.size", "idx": "idx", "force": "forceIntoProject"},
     calls={"idx_to_date_fast": ("contract", CY + "::idx_to_date_fast")},
     note="with the extension loaded an index outside the C int range raises OverflowError instead of IndexError; "
          "the contract is stated for 32-bit indices and horizons below 2^31 seconds",
@@ -134,6 +142,7 @@ contract(
     defaults={"forceIntoProject": True},
     consts={"_USE_CYTHON": False},
     requires=_d2i_requires, ensures=_d2i_ensures, raises=_d2i_raises,
+    replay="scoreboard", probes={"start": "secs(self.startDate)", "end": "secs(self.endDate)", "res": "self.resolution", "size": "self.size", "date": "secs(date)", "force": "forceIntoProject"},
 )
 
 contract(
@@ -146,6 +155,7 @@ contract(
         ("c-int", f"self.resolution <= {I32} and self.size <= {I32}"),
         ("c-range", f"-{I32} <= {_d2i_q} and {_d2i_q} <= {I32}")],
     ensures=_d2i_ensures, raises=_d2i_raises,
+    replay="scoreboard", probes={"start": "secs(self.startDate)", "end": "secs(self.endDate)", "res": "self.resolution", "size": "self.size", "date": "secs(date)", "force": "forceIntoProject"},
     calls={"date_to_idx_fast": ("contract", CY + "::date_to_idx_fast")},
 )
 
